@@ -29,6 +29,12 @@ type instance struct {
 	h      *hg.Hashgraph
 	err    error // first store/insert error (unsupported configuration)
 	events map[string]bool
+	// a membership change came into force at a round that already had events in
+	// this instance (open finding C10 set-change-in-force-...): what the instance
+	// computes then depends on the order of insertion
+	lateSetChange bool
+	nSets         int
+	seenSet       map[int]bool
 }
 
 func (c *Cluster) newInstance(name, storeKind string, cache int) *instance {
@@ -95,6 +101,30 @@ func (in *instance) insert(de *DagEvent) {
 		// malformed signature payloads are not part of honest DAGs
 		in.err = fmt.Errorf("sigpool: %v", err)
 	}
+	in.noteSetChanges()
+}
+
+// noteSetChanges: did a new validator set just come into force at a round the
+// instance already has events of?
+func (in *instance) noteSetChanges() {
+	sets, err := in.h.Store.GetAllPeerSets()
+	if err != nil || len(sets) == in.nSets {
+		return
+	}
+	in.nSets = len(sets)
+	last := in.h.Store.LastRound()
+	for r := range sets {
+		if r > 0 && r <= last {
+			// (a set recorded for a round <= the last round: either late, or an old one seen again)
+			if !in.seenSet[r] {
+				in.lateSetChange = true
+			}
+		}
+		if in.seenSet == nil {
+			in.seenSet = map[int]bool{}
+		}
+		in.seenSet[r] = true
+	}
 }
 
 // insertOnly inserts without running consensus (batched variants).
@@ -120,6 +150,7 @@ func (in *instance) pass() {
 			return
 		}
 	}
+	in.noteSetChanges()
 }
 
 // topoOrder returns the record in a topological order (parents first), stable
@@ -516,6 +547,16 @@ func (c *Cluster) dagReplay(variants int) {
 			}
 		}
 		c.compareInstances(ref, v, whole && len(order) == len(base))
+		if ref.lateSetChange || v.lateSetChange {
+			// one class, whatever the symptom (see known_findings.json): a membership
+			// change came into force at a round that already had events
+			for _, viol := range c.violations[nv:] {
+				if viol.Property == "C03" || viol.Property == "C01" {
+					viol.Key = "set-change-in-force-at-a-round-that-already-has-events"
+				}
+			}
+			c.stats.probe("dagreplay-late-set-change")
+		}
 		if batch > 1 {
 			// disagreements of variants that batch the consensus passes over several
 			// insertions form one class (see known_findings.json)
@@ -555,7 +596,7 @@ func (c *Cluster) blockProp() string {
 // pseudo-property REFMODEL (an alert about the harness's model, never a verdict
 // on a listed property).
 func (c *Cluster) crossCheckRefModel(ref *instance) {
-	if c.refDag == nil {
+	if c.refDag == nil || ref.lateSetChange {
 		return
 	}
 	d := c.refDag
